@@ -13,9 +13,10 @@ class Item:
         self.line = 0
 
 class Verbatim:
-    def __init__(self, text, line):
+    def __init__(self, text, line, inside=False):
         self.text = text
         self.line = line
+        self.inside = inside
 
 class Unit:
     def __init__(self, name):
@@ -38,9 +39,9 @@ def parse(path):
     def flush():
         nonlocal buf, cur_kind, cur_arg
         text = "\n".join(buf)
-        if cur_kind == 'verbatim':
+        if cur_kind in ('verbatim', 'inside'):
             if text.strip():
-                unit.entries.append(Verbatim(text, start_line))
+                unit.entries.append(Verbatim(text, start_line, cur_kind == 'inside'))
         elif cur_kind is not None and cur_item is not None:
             cur_item.parts.append((cur_kind, cur_arg, text))
         elif text.strip():
@@ -71,9 +72,9 @@ def parse(path):
             continue
         flush()
         start_line = ln
-        if d == 'verbatim':
+        if d in ('verbatim', 'inside'):
             cur_item = None
-            cur_kind = 'verbatim'
+            cur_kind = d
         elif d == 'item':
             # //@ item <file> :: <selector> [key=value ...]
             mm = re.match(r'^(\S+)\s*::\s*(.*?)\s*(\[(.*)\])?$', rest)
@@ -106,7 +107,7 @@ def parse(path):
             cur_kind, cur_arg = 'at', (mm.group(1), int(mm.group(3)) if mm.group(3) else None)
         else:
             raise SpecError("%s:%d: unknown directive %s" % (path, ln, d))
-        if cur_item is None and cur_kind not in ('verbatim', None):
+        if cur_item is None and cur_kind not in ('verbatim', 'inside', None):
             raise SpecError("%s:%d: %s outside of an item" % (path, ln, d))
     flush()
     if unit is None:
